@@ -267,7 +267,13 @@ def c12_macro_steps(ctx):
     c10_1(ctx)
 
 
-RULES = [c12_1, c12_2, c12_3, c12_4, c12_macro_steps]
+def c12_state(ctx):
+    """Nothing is remembered between statements / files beyond the reviewed state (rules/shared.py STATE)."""
+    from rules.shared import state_discipline
+    state_discipline(ctx, ('bespokeasm.assembler.bytecode', 'bespokeasm.assembler.model.operand'))
+
+
+RULES = [c12_1, c12_2, c12_3, c12_4, c12_macro_steps, c12_state]
 
 _P = 'assembler/bytecode/parts.py'
 _R = 'assembler/model/operand/types/relative_address.py'
